@@ -203,6 +203,20 @@ def main():
             files = args[i + 1]
         if a == "--limit":
             limit = int(args[i + 1])
+    if cmd == "recheck":
+        # run today's rules on the survivors of the last run (the repository must not have changed since)
+        prev = json.load(open(f"{OUT}/results.json"))
+        surv = [m for m in prev if m.get("survived_tests")]
+        props = [c["property_id"] for c in json.load(open("/verif/MANIFEST.json"))["checks"]]
+        still = []
+        with ProcessPoolExecutor(max_workers=14) as ex:
+            for (mid, status, fired), m in zip(ex.map(_static, [(m, props) for m in surv], chunksize=2), surv):
+                if not fired:
+                    still.append(m)
+        print(f"survivors {len(surv)}; now reported {len(surv) - len(still)}; still unreported {len(still)}")
+        for r in still:
+            print(f"  #{r['id']} {r['path']}:{r['line']} [{r['op']}] {r['old']!r} -> {r['new'][:80]!r}")
+        return
     src, muts = all_mutants(ops, files)
     if cmd == "gen":
         from collections import Counter
